@@ -43,13 +43,13 @@ type OViol struct {
 // Scenario is a closed concurrent program: a deterministic builder of instances.
 type Scenario struct {
 	Seq            *SeqSpec // non-nil: an E2 (sequence search) job instead of a schedule exploration
-	Classes        int // oracle classes that decide the property this scenario is run for
-	ExpectOutcomes int // vacuity guard: at least this many distinct outcomes are expected
-	Name     string
-	Prop     string // property the scenario family belongs to
-	New      func() *Instance
-	NoBlock  []bool
-	MaxSteps []int
+	Classes        int      // oracle classes that decide the property this scenario is run for
+	ExpectOutcomes int      // vacuity guard: at least this many distinct outcomes are expected
+	Name           string
+	Prop           string // property the scenario family belongs to
+	New            func() *Instance
+	NoBlock        []bool
+	MaxSteps       []int
 	// PreemptBound >= 0 switches to preemption-bounded search without state caching merge across bounds.
 	PreemptBound int
 	MaxStates    int // 0 = default cap
@@ -58,40 +58,40 @@ type Scenario struct {
 }
 
 type Violation struct {
-	Scenario string   `json:"scenario"`
-	Kind     string   `json:"kind"` // oracle | deadlock | horizon | panic | monitor
-	Signature string  `json:"signature"`
-	Detail   string   `json:"detail"`
-	Choices  []uint8  `json:"choices"`
-	History  []string `json:"history,omitempty"`
-	Schedule []string `json:"schedule,omitempty"`
-	Events   []int    `json:"events,omitempty"` // E2: the event sequence
+	Scenario  string   `json:"scenario"`
+	Kind      string   `json:"kind"` // oracle | deadlock | horizon | panic | monitor
+	Signature string   `json:"signature"`
+	Detail    string   `json:"detail"`
+	Choices   []uint8  `json:"choices"`
+	History   []string `json:"history,omitempty"`
+	Schedule  []string `json:"schedule,omitempty"`
+	Events    []int    `json:"events,omitempty"` // E2: the event sequence
 }
 
 type ExploreStats struct {
-	Scenario     string         `json:"scenario"`
-	Executions   int            `json:"executions"`
-	Complete     int            `json:"complete"`
-	Pruned       int            `json:"pruned"`
-	States       int            `json:"states"`
-	Transitions  int            `json:"transitions"`
-	MaxDepth     int            `json:"max_depth"`
-	Outcomes     map[string]int `json:"outcomes"`
-	Exhaustive   bool           `json:"exhaustive"`
-	CapHit       string         `json:"cap_hit,omitempty"`
-	BoundDone    int            `json:"preemption_bound_completed"` // -1 = unbounded
-	Violations   []Violation    `json:"violations,omitempty"`
-	Infra        string         `json:"infra,omitempty"`
-	WallMs       int64          `json:"wall_ms"`
-	MaxPreempt   int            `json:"max_preemptions_seen"`
-	SampleSched  []string       `json:"sample_schedule,omitempty"`
-	SampleHist   []string       `json:"sample_history,omitempty"`
-	ThreadSteps  []int          `json:"thread_steps,omitempty"`
-	Deterministic bool          `json:"determinism_checked"`
-	OutcomeCount    int         `json:"outcome_count,omitempty"`
-	Fallback        string      `json:"fallback,omitempty"`
-	UnboundedStates int         `json:"unbounded_states_before_fallback,omitempty"`
-	OtherObs      int           `json:"observations_for_other_properties"` // oracle classes that belong to other properties failed (not counted here)
+	Scenario        string         `json:"scenario"`
+	Executions      int            `json:"executions"`
+	Complete        int            `json:"complete"`
+	Pruned          int            `json:"pruned"`
+	States          int            `json:"states"`
+	Transitions     int            `json:"transitions"`
+	MaxDepth        int            `json:"max_depth"`
+	Outcomes        map[string]int `json:"outcomes"`
+	Exhaustive      bool           `json:"exhaustive"`
+	CapHit          string         `json:"cap_hit,omitempty"`
+	BoundDone       int            `json:"preemption_bound_completed"` // -1 = unbounded
+	Violations      []Violation    `json:"violations,omitempty"`
+	Infra           string         `json:"infra,omitempty"`
+	WallMs          int64          `json:"wall_ms"`
+	MaxPreempt      int            `json:"max_preemptions_seen"`
+	SampleSched     []string       `json:"sample_schedule,omitempty"`
+	SampleHist      []string       `json:"sample_history,omitempty"`
+	ThreadSteps     []int          `json:"thread_steps,omitempty"`
+	Deterministic   bool           `json:"determinism_checked"`
+	OutcomeCount    int            `json:"outcome_count,omitempty"`
+	Fallback        string         `json:"fallback,omitempty"`
+	UnboundedStates int            `json:"unbounded_states_before_fallback,omitempty"`
+	OtherObs        int            `json:"observations_for_other_properties"` // oracle classes that belong to other properties failed (not counted here)
 }
 
 type ExploreOpts struct {
